@@ -78,6 +78,20 @@ def run_case(desc, ctx):
     ok, (m, V, E, cls, z) = ctx.call("build", _mesh, desc, rng, monitor="path")
     n = len(V)
     mode = desc["weights"]
+    V = np.array(V, dtype=float)
+    # history: the mesh was measured earlier (persistent edge lengths, default attribute name) and then deformed non-uniformly in place;
+    # Euclidean weights must be those of the geometry at the time of the query
+    if rng.random() < 0.35:
+        ctx.cls("history:measured_then_deformed")
+        ctx.call("attributes.edge_length", M.attributes.edge_length, m, monitor="path")
+        sc = np.array([rng.choice([0.2, 1.0, 3.0, 7.0]) for _ in range(3)])
+        sh = rng.uniform(-0.5, 0.5)
+        V = V * sc
+        V[:, 0] += sh * V[:, 1]
+        for i in range(n):
+            m.vertices[i] = M.Vec(V[i].copy())
+    else:
+        ctx.cls("history:fresh")
     ctx.cls("mesh:" + cls)
     ctx.cls("weights:" + mode)
     # weight function on unordered pairs, independent of the library
@@ -133,8 +147,16 @@ def run_case(desc, ctx):
             tg = rng.sample(same, min(len(same), rng.randint(1, 3)))
             arg = {"list": list, "set": set, "tuple": tuple}[kind](tg)
         ctx.cls("targets:" + kind)
+        export = rng.random() < 0.25
         ok, res = ctx.call("shortest_path[%s]" % ("one" if mode == "one" else "length" if mode == "length" else "custom"),
-                           M.processing.shortest_path, m, start, arg, warg, monitor="path", abort=False)
+                           M.processing.shortest_path, m, start, arg, warg, export, monitor="path", abort=False)
+        if ok and export:
+            ctx.cls("export_path_mesh")
+            try:
+                res, _pm = res
+            except Exception:
+                ctx.violation("path", "shortest_path", "malformed_result", "with export_path_mesh the result is not (paths, polyline)", got=repr(res)[:200])
+                ok = False
         if ok:
             if not isinstance(res, dict) or set(int(k) for k in res) != set(tg):
                 ctx.violation("path", "shortest_path", "wrong_target_keys", "result does not have one path per requested target", got=repr(res)[:200], targets=tg)
@@ -160,10 +182,14 @@ def run_case(desc, ctx):
             S = rng.sample(far, min(len(far), 3))
         ctx.cls("set:" + kset)
         sarg = {0: list, 1: set, 2: tuple}[q % 3](S)
-        ok, res = ctx.call("shortest_path_to_vertex_set[%s]" % kset, M.processing.shortest_path_to_vertex_set, m, start, sarg, warg, monitor="set", abort=False)
+        export = rng.random() < 0.25
+        ok, res = ctx.call("shortest_path_to_vertex_set[%s]" % kset, M.processing.shortest_path_to_vertex_set, m, start, sarg, warg, export, monitor="set", abort=False)
         if ok:
             try:
-                ind, path = res
+                if export:
+                    ind, path, _pm = res
+                else:
+                    ind, path = res
                 ind = int(ind)
             except Exception:
                 ctx.violation("set", "vertex_set", "malformed_result", "result is not (index, path)", got=repr(res)[:200])
